@@ -145,7 +145,7 @@ func (in *Interp) strIndex(s *State, f *Frame, x ssa.Value, str *Str, index ssa.
 	if !ok {
 		panic(goPanic{msg: fmt.Sprintf("index out of range (symbolic) with length %d (string)", n)})
 	}
-	if n > 64 {
+	if n > 256 {
 		// long (table) string indexed symbolically: concretize the index
 		_, forks := in.concretize(s, f, index, "string index")
 		if forks != nil {
@@ -347,6 +347,11 @@ func (in *Interp) nextInstr(s *State, th *Thread, f *Frame, x *ssa.Next) []*Stat
 		in.unsup("range over symbolic string needs unicode/utf8 loaded")
 	}
 	fn := dec.Func("DecodeRuneInString")
+	if tgt, ok := in.cfg.Redirect["unicode/utf8.DecodeRuneInString"]; ok {
+		if rf := in.rtPkg.Func(tgt); rf != nil {
+			fn = rf
+		}
+	}
 	in.pushFrame(s, th, fn, []Value{in.substr(d.Str, d.Pos, n)}, nil, x, retStrNext)
 	return nil
 }
